@@ -417,7 +417,8 @@ MustReject(O, op) ==
        [] op.op = "SetAttr" -> known /\ (WrongLength(op.opd, ob.L, ob.L) \/ WrongRank(op.opd))
        [] op.op = "SetLabel" -> ~known \/ op.pos \notin 0..(ob.L - 1) \/ (Rank(op.opd) >= 1 /\ op.opd.cls # "Arr1One")
        [] op.op = "SetSlice" -> ~known \/ op.a \notin 0..(ob.L - 1) \/ op.b \notin 0..(ob.L - 1)
-                                \/ WrongLength(op.opd, op.b - op.a + 1, ob.L) \/ WrongRank(op.opd)
+                                \/ (WrongLength(op.opd, op.b - op.a + 1, ob.L) /\ Shape(op.opd, ob.L, 0)[1] # 1) \/ WrongRank(op.opd)
+                                   \* (a one-element sequence of any class broadcasts over a label slice: unconstrained, as in EffSetSlice)
        [] op.op = "AddVariable" -> known \/ (Total(Shape(op.opd, ob.L, 0)) # ob.L /\ Rank(op.opd) >= 1 /\ op.opd.cls # "Arr1One")
        [] op.op = "ReplaceValues" -> Len(op.names) = 1 /\ (op.names[1] \notin RangeOf(ob.index)
                                        \/ WrongLength(op.opds[1], ob.L, ob.L) \/ WrongRank(op.opds[1]))
